@@ -66,7 +66,7 @@ class Model:
 
     def input_for(self, op):
         kind, dl, role = op
-        if kind.startswith("to_"):
+        if kind.startswith("to_") or kind == "define":
             return None
         if op not in self._inp:
             twin = family.Family(self.fam, "eager", self.support)
